@@ -188,7 +188,7 @@ def build_harness(scr, name, sources, repo_sources=(), flags=(), libs=('-lgmpxx'
     os.replace(exe + '.tmp', exe)
     # keep the cache small
     bins = sorted((os.path.getmtime(os.path.join(BUILD, 'bin', f)), f) for f in os.listdir(os.path.join(BUILD, 'bin')))
-    for _, f in bins[:-40]:
+    for _, f in bins[:-110]:      # C20 alone keeps 36 binaries (flag-set combinations)
         try: os.unlink(os.path.join(BUILD, 'bin', f))
         except OSError: pass
     return exe, None, time.time() - t0
